@@ -79,6 +79,12 @@ w("39", "C11", "lazy intersections all filter by the last operand (late-bound ge
 w("40", "C10", "a comparison used as a comparison operand loses its parentheses", {"text": "$[?(@.a == 1) == true]", "docs": [[{"a": 1}, {"a": False}, {"a": True}, {"a": 2}]], "class": "witness"})
 w("40", "C10", "a negated comparison used as a comparison operand loses its grouping", {"text": "$[?(@.a < 2) in [true]]", "docs": [[{"a": 1}, {"a": False}, {"a": True}, {"a": 2}]], "class": "witness"})
 w("41", "C05", "add at index == length refused when the pointer was built from string tokens (from_parts)", {"doc": {"a": [1]}, "ops": [{"op": "add", "path": "/a/1", "value": 2}], "class": "witness", "builder_from_parts": True})
+w("42", "C06", "pointer token of more than 4300 digits raises ValueError (Python's int digit limit)", {"kind": "pointer", "text": "/" + "1" * 4301, "docs": [[1]]})
+w("42", "C06", "patch path with a token of more than 4300 digits raises ValueError", {"kind": "patch", "ops": [{"op": "add", "path": "/a/" + "1" * 4301, "value": 1}], "docs": [{"a": [1]}]})
+w("43", "C06", "regex literal with an oversized repetition count raises OverflowError", {"kind": "query", "text": "$[?@.a =~ /a{99999999999}/]", "docs": [[{"a": "x"}]]})
+w("43", "C06", "match() with an oversized repetition count raises OverflowError", {"kind": "query", "text": "$[?match(@.a, 'a{99999999999}')]", "docs": [[{"a": "x"}]]})
+w("43", "C06", "search() with incompatible inline flags raises ValueError", {"kind": "query", "text": "$[?search(@.a, '(?a)(?u)a')]", "docs": [[{"a": "x"}]]})
+w("44", "C06", "'#' pointer token of more than 4300 digits raises ValueError", {"kind": "pointer", "text": "/#" + "1" * 4301, "docs": [[1]]})
 w("38", "C06", "patch target with a key marker raises KeyError", {"kind": "patch", "ops": [{"op": "remove", "path": "/#a"}], "docs": [{"a": 1}]})
 w("38", "C06", "patch target with an index marker raises ValueError", {"kind": "patch", "ops": [{"op": "add", "path": "/b/#0", "value": 1}], "docs": [{"b": [1, 2]}]})
 
